@@ -393,7 +393,7 @@ impl Property for C43 {
         "measurement uncertainties are positive (≥ 1 ns); offsets are finite and |offset| ≤ 1e3 s",
         "the estimate 'just before steering' is obtained by applying LinkFilter::progress_time and LinkFilter::measurement (the two operations KalmanLink::measurement performs before steering) to a copy of the controller's filter",
     ];
-    const QUICK_CASES: u32 = 300_000;
+    const QUICK_CASES: u32 = 1_000_000;
     const THOROUGH_CASES: u32 = 8_000_000;
 
     fn strategy(_tier: Tier) -> BoxedStrategy<Case> {
